@@ -222,7 +222,7 @@ class LemmaChain:
             return False
         hyps = self.select(node) if hyps is None else list(hyps)
         forms = self.generalise([node] + self.base + hyps)
-        st, r, text = prove(d, forms[1:], forms[0], timeout=timeout or self.timeout, tr=self.tr, label=what)
+        st, r, text = prove(d, forms[1:], forms[0], timeout=timeout or self.timeout, tr=self.tr, label=what, parallel=True)
         if self.verbose:
             print(f'   [{st:8s} {r.secs if r else 0:6.2f}s {r.solver if r else ""}] {what}', flush=True)
         if st == 'proved':
@@ -275,6 +275,9 @@ class LemmaChain:
         for e in nodes:
             a = d.args[e][1]
             done = False
+            if abs(d.vals[a]) < 1e-12 and self.prove(f'exp argument zero #{e}', d.eq(a, 0)):
+                self.fact(d.eq(e, 1))  # exp 0 = 1
+                continue
             for e0 in reps:
                 a0 = d.args[e0][1]
                 if self.close(d.vals[a], d.vals[a0]) and self.prove(f'exp arguments agree #{e}~#{e0}', d.eq(a, a0)):
@@ -310,16 +313,20 @@ class LemmaChain:
                 ok = False
         return ok
 
+    def positive(self, g):
+        d = self.d
+        return d.lt(0, g) in self.facts or self.lemma(f'log argument #{g} positive', d.lt(0, g))
+
     def log_phase(self, I, O):
-        """pair log applications of implementation and oracle; returns unpaired impl logs"""
+        """pair log applications of implementation and oracle on the witness; prove the pairing relation"""
         d = self.d
         li = self.uf_nodes([I], 'log')
         lo = self.uf_nodes([O], 'log')
         only_i = [n for n in li if n not in lo]
         only_o = [n for n in lo if n not in li]
         consts = [Fraction(1), Fraction(4), Fraction(2), Fraction(1, 4), Fraction(1, 2)]
+        log4 = d.log(d.const(4))
         unpaired = []
-        used = set()
         for L1 in only_i:
             g1 = d.args[L1][1]
             v1 = d.vals[g1]
@@ -335,26 +342,43 @@ class LemmaChain:
                                 self.fact(d.eq(L1, L2))  # congruence
                                 found = True
                         elif c > 1:
-                            if self.prove(f'log arguments: #{L1} = {c} * #{L2}', d.and_(d.eq(g1, d.mul(cn, g2)), d.lt(0, g2))):
+                            if self.prove(f'log arguments: #{L1} = {c} * #{L2}', d.eq(g1, d.mul(cn, g2))) and self.positive(g2):
                                 self.fact(d.eq(L1, d.add(d.log(cn), L2)))  # log(c x) = log c + log x, x > 0
                                 found = True
                         else:
                             ci = d.const(1 / c)
-                            if self.prove(f'log arguments: #{L2} = {1 / c} * #{L1}', d.and_(d.eq(g2, d.mul(ci, g1)), d.lt(0, g1))):
+                            if self.prove(f'log arguments: #{L2} = {1 / c} * #{L1}', d.eq(g2, d.mul(ci, g1))) and self.positive(g1):
                                 self.fact(d.eq(L2, d.add(d.log(ci), L1)))
                                 found = True
                     elif self.close(v1 * v2, float(c)) and c >= 1:  # g1 g2 = c
-                        if self.prove(f'log arguments: #{L1} * #{L2} = {c}',
-                                      d.and_(d.eq(d.mul(g1, g2), cn), d.lt(0, g1), d.lt(0, g2))):
+                        if self.prove(f'log arguments: #{L1} * #{L2} = {c}', d.eq(d.mul(g1, g2), cn)) \
+                                and self.positive(g1) and self.positive(g2):
                             self.fact(d.eq(d.add(L1, L2), d.log(cn) if c != 1 else 0))  # log x + log y = log(xy)
                             found = True
                     if found:
                         break
                 if found:
-                    used.add(L2)
                     break
             if not found:
                 unpaired.append(L1)
+        # three-way relations (an event in an older epoch, the boundary term, the oracle's q): g1 gb g2 = 16
+        for L1 in list(unpaired):
+            g1 = d.args[L1][1]
+            found = False
+            for Lb in unpaired:
+                if Lb == L1 or found:
+                    continue
+                gb = d.args[Lb][1]
+                for L2 in only_o:
+                    g2 = d.args[L2][1]
+                    if self.close(d.vals[g1] * d.vals[gb] * d.vals[g2], 16.0):
+                        if self.prove(f'log arguments: #{L1} * #{Lb} * #{L2} = 16', d.eq(d.mul(d.mul(g1, gb), g2), d.const(16))) \
+                                and self.positive(g1) and self.positive(gb) and self.positive(g2):
+                            self.fact(d.eq(d.add(d.add(L1, Lb), L2), d.mul(d.const(2), log4)))  # log(xyz), log 16 = 2 log 4
+                            found = True
+                            break
+            if found:
+                unpaired.remove(L1)
         return unpaired
 
     def equal(self, I, O, signature, what):
@@ -365,13 +389,13 @@ class LemmaChain:
         self.sqrt_phase([goal])
         self.exp_phase([goal])
         self.defined = self.sign_phase(t.denominators)
-        self.log_phase(I, O)
         self.undefined = []
         for kind, x in t.domains:
             if d.ops[x] == 'var' or any(f == d.lt(0, x) for f in self.facts):
                 continue
             if not self.lemma(f'{"log" if kind == "pos" else "sqrt"} argument #{x} in its domain', d.lt(0, x) if kind == 'pos' else d.le(0, x)):
                 self.undefined.append(x)
+        self.log_phase(I, O)
         hyps = [f for f in self.facts if any(d.ops[a] == 'uf' and d.args[a][0] == 'log' for a in self.atoms([f]))]
         forms = self.generalise([goal] + hyps)
         return Goal(what, forms[0], hyps=forms[1:], signature=signature)
@@ -588,6 +612,8 @@ def make_body(c, tr, verbose=False):
 
         sig = region_signature(c, W)
         what = f'{cfg_label(c)}: log_prob == Stadler constant-rate density'
+        if verbose:
+            print(f'-- region witness {W} [{time.strftime("%X")}]', flush=True)
         try:
             dist = build_dist(c, mk)
             impl = dist.log_prob(mk(heights_names(c)))
